@@ -55,6 +55,13 @@ def today (strict incl : Bool) : Cfg :=
     mark := fun k => match k with | .jti => todayMarkJti | .s2s => todayMarkS2S,
     ttl := todayTTL }
 
+/-- several nodes sharing one Redis, one request per node: a mutex that lives in each node's process serialises
+    nothing between them, so the locked shapes degrade to their unlocked two-call forms -/
+def todayRedisMultiNode : Cfg :=
+  let c := today false false
+  { c with gad := (match c.gad with | .locked => .twoCalls | g => g),
+           mark := fun m => (match c.mark m with | .locked => .getThenPut | x => x) }
+
 /-- the in-memory back-end (go-cache) -/
 def todayMem : Cfg := today false true
 /-- the Redis back-end -/
@@ -90,5 +97,21 @@ def soloOps (cfg : Cfg) : Nat → World → List String
     | some t =>
       if enabled w 0 then (match t.nextOp cfg with | some o => [o] | none => []) ++ soloOps cfg fuel (stepW cfg w 0)
       else []
+
+/-! ### witness schedules for the unlocked two-call shapes (used by Props and replayed on the real code) -/
+
+/-- `GetAndDelete` = Get, then Delete, no lock, on a back-end whose Delete is silent about missing keys;
+    mark consumers = Get, then Put, no lock -/
+def cfgTwoCalls : Cfg :=
+  { gad := .twoCalls, gadRawDelete := true, strictDelete := false, expInclusive := true,
+    mark := fun _ => .getThenPut, ttl := fun _ => 60 }
+
+def witnessCodeReq : Req := .burn { kind := .code, id := "s1", want := "clientA" }
+def witnessStore : Store := [(⟨.burn .code, "s1"⟩, ⟨"clientA", 60⟩)]
+/-- launch both, get₁ get₂ del₁ del₂, then the deferred deletes -/
+def witnessSched : List Ev := [.step 0, .step 1, .step 0, .step 1, .step 0, .step 1, .step 0, .step 1]
+/-- launch both, get₁ get₂ put₁ put₂ -/
+def witnessMarkSched : List Ev := [.step 0, .step 1, .step 0, .step 1, .step 0, .step 1]
+def witnessMarkReqs (m : MarkKind) : List Req := [.mark ⟨m, "n1"⟩, .mark ⟨m, "n1"⟩]
 
 end Nuts.C05
